@@ -68,6 +68,9 @@ def run(ctx):
         s = core.rand_vector(ver, rng, p_absent=rng.choice([0.2, 0.5, 0.8]))
         vs = [s] + variants(ver, s, rng, 4)
         groups.append((ver, vs))
+    for ver in "234":
+        for s in core.special(ver, rng, ctx.n(1200, 30000)):
+            groups.append((ver, [s] + variants(ver, s, rng, 3)))
     ctx.sample({"vector": groups[0][1][0], "variants": groups[0][1][1:3]})
     for ver in "234":
         flat = [(ver, x) for v, vs in groups if v == ver for x in vs]
